@@ -6,38 +6,77 @@
   on is in flight), PV/Model/PrefetchUniq.lean (request numbers are fresh and in flight at most once).
 -/
 import PV.Model.PrefetchUniq
+import PV.Model.PrefetchCtx
 import PV.Generated.C28
 namespace PV.Props.C28
 open PV PV.Prefetch
 
 /-- Every prefetch buffer holds true file content at its offset — after any schedule of any operations
-    (any chunk lists: overlapping, unordered, beyond EOF; any caps; any short reads `serve k`). -/
-theorem buffers_hold_file_content (file : Bytes) (maxReq : Nat) (hm : 0 < maxReq) (acts : List Act) :
-    ∀ e ∈ (run (init file maxReq) acts).bufs, e.2 = slice file e.1 e.2.length := by
+    (any chunk lists: overlapping, unordered, beyond EOF; any caps; any short reads `serve k`; failing requests;
+    unbuffered or buffered file, `bufsize`). -/
+theorem buffers_hold_file_content (file : Bytes) (maxReq : Nat) (hm : 0 < maxReq) (bufsize : Nat) (acts : List Act) :
+    ∀ e ∈ (run (init file maxReq bufsize) acts).bufs, e.2 = slice file e.1 e.2.length := by
   intro e he
-  have hi := run_inv (init_inv file maxReq hm) acts
-  have hf : (run (init file maxReq) acts).file = file := run_file _ _
+  have hi := (run_inv (init_inv file maxReq hm bufsize) (init_rb file maxReq bufsize) acts).1
+  have hf : (run (init file maxReq bufsize) acts).file = file := run_file _ _
   have := hi.base.bufs e he
   rw [hf] at this
   exact this
 
-/-- **Reads are exact.**  Every completed `read(n)` that started at position `p` returned `file[p : p+n]`
-    (Python slicing: truncated at end of file), and every completed `read()` returned `file[p:]` —
-    for every schedule, every program of prefetch/readv/seek/read, every cap, every short-read choice. -/
-theorem reads_exact (file : Bytes) (maxReq : Nat) (hm : 0 < maxReq) (acts : List Act) :
-    ∀ e ∈ (run (init file maxReq) acts).out,
+/-- **Reads are exact.**  Every completed `read(n)` that was issued at file position `p` (`_pos`: read-ahead in
+    `_rbuffer` accounted for) returned `file[p : p+n]` (Python slicing: truncated at end of file), and every
+    completed `read()` returned `file[p:]` — for every schedule, every program of prefetch/readv/seek/read, every
+    cap, every short-read choice, failing requests, unbuffered and buffered files. -/
+theorem reads_exact (file : Bytes) (maxReq : Nat) (hm : 0 < maxReq) (bufsize : Nat) (acts : List Act) :
+    ∀ e ∈ (run (init file maxReq bufsize) acts).out,
       e.2.2 = (match e.2.1 with | some n => slice file e.1 n | none => file.drop e.1) := by
   intro e he
-  have hi := run_inv (init_inv file maxReq hm) acts
+  have hi := (run_inv (init_inv file maxReq hm bufsize) (init_rb file maxReq bufsize) acts).1
   have := hi.base.out e he
   rw [run_file] at this
   exact this
 
+/-- The read-ahead bookkeeping of BufferedFile: after any schedule `_rbuffer` holds the file's bytes at `_pos`, and
+    between calls `_realpos = _pos + len(_rbuffer)`. -/
+theorem read_ahead_consistent (file : Bytes) (maxReq : Nat) (hm : 0 < maxReq) (bufsize : Nat) (acts : List Act) :
+    RbOK (run (init file maxReq bufsize) acts) :=
+  (run_inv (init_inv file maxReq hm bufsize) (init_rb file maxReq bufsize) acts).2
+
+/-- **readv blocks are exact** (with `reads_exact`): one step of readv's final loop — `seek(off); read(n)`, the
+    model's `readAt off n` — starts a read at exactly `off` whatever read-ahead was buffered before (or has already
+    completed it: the new `out` entry is for `(off, n)`), -/
+theorem readv_block_starts_at_its_offset (s s' : St) (off : Nat) (want : Option Nat)
+    (h : step s (.rOp (.readAt off want)) = some s') : Continues off want s s' := by
+  simp only [step] at h
+  cases hpc : s.pc with
+  | idle =>
+    simp only [hpc] at h; cases h
+    exact continues_frame (s := { s with realpos := off, pos := off, rbuf := [] }) rfl rfl
+      (advance_continues _ _ { start := off, want := want, acc := [], size := 0 })
+  | _ => simp [hpc] at h
+
+/-- …and a running read keeps its start position and requested size through every later step of the reader until
+    it completes (its entry in `out` is `(start, want, bytes)`, and `reads_exact` says `bytes = file[start :
+    start+want]`) or raises. -/
+theorem running_read_keeps_its_start (s s' : St) (c : RCtx) (hc : pcCtx s.pc = some c)
+    (h : step s .rStep = some s') : Continues c.start c.want s s' :=
+  rStep_continues hc h
+
+/-- non-vacuity (read-ahead): a buffered file (`bufsize` 4) reads 1 byte — 4 are fetched, 3 stay in `_rbuffer`,
+    `_pos` = 1, `_realpos` = 4 — and a readv block that starts exactly where the read-ahead ended (offset 4 =
+    `_realpos`) still returns file[4:6], not the buffered bytes at `_pos`. -/
+example :
+    let s := run (init [10, 11, 12, 13, 14, 15, 16, 17] 8 4)
+      [.rOp (.read (some 1)), .rStep, .rStep, .serve 4, .rStep]
+    s.out = [(0, some 1, [10])] ∧ s.pos = 1 ∧ s.rbuf = [11, 12, 13] ∧ s.realpos = 4 ∧
+    (run s [.rOp (.readAt 4 (some 2)), .rStep, .rStep, .serve 2, .rStep]).out
+      = [(0, some 1, [10]), (4, some 2, [14, 15])] := by decide
+
 /-- the theorem instantiated at paramiko's real request size (generated from the source) -/
-theorem reads_exact_paramiko (file : Bytes) (acts : List Act) :
-    ∀ e ∈ (run (init file PV.Generated.C28.maxRequestSize) acts).out,
+theorem reads_exact_paramiko (file : Bytes) (bufsize : Nat) (acts : List Act) :
+    ∀ e ∈ (run (init file PV.Generated.C28.maxRequestSize bufsize) acts).out,
       e.2.2 = (match e.2.1 with | some n => slice file e.1 n | none => file.drop e.1) :=
-  reads_exact file _ (by decide) acts
+  reads_exact file _ (by decide) bufsize acts
 
 /-- non-vacuity: a concrete schedule in which a capped readv with a beyond-EOF chunk first (the input that hung
     before the fix) completes both reads with the right bytes. -/
@@ -59,10 +98,10 @@ example :
     once among the requests on the wire, the queued responses and the response being dispatched; a registered
     extent is keyed by the number of a request that is still in flight; and an answer whose extent is not registered
     yet belongs to a prefetch thread that is between "packet sent" and "extent registered". -/
-theorem request_numbers_unique (file : Bytes) (maxReq : Nat) (acts : List Act) (hcaps : ∀ a ∈ acts, actOK a) :
+theorem request_numbers_unique (file : Bytes) (maxReq bufsize : Nat) (acts : List Act) (hcaps : ∀ a ∈ acts, actOK a) :
     PV.Generated.C28.idReadUnderLock = true ∧
-    Live (run (init file maxReq) acts) ∧ Uniq (run (init file maxReq) acts) :=
-  ⟨by decide, run_live_uniq (init_live file maxReq) (init_uniq file maxReq) acts hcaps⟩
+    Live (run (init file maxReq bufsize) acts) ∧ Uniq (run (init file maxReq bufsize) acts) :=
+  ⟨by decide, run_live_uniq (init_live file maxReq bufsize) (init_uniq file maxReq bufsize) acts hcaps⟩
 
 /-- **A blocked reader is never stuck.**  After any schedule of any program whose caps are `None` or ≥ 1: whenever
     the reader cannot take its next step — it waits for a response packet (inside `_read_prefetch` or inside a
@@ -70,10 +109,10 @@ theorem request_numbers_unique (file : Bytes) (maxReq : Nat) (acts : List Act) (
     before `_prefetch_thread` registered its extent — some other task (the server or a prefetch thread) is enabled.
     Before the fix this failed: a STATUS answer left its extent behind, so with nothing in flight the reader
     waited and a capped prefetch thread spun. -/
-theorem waiting_reader_not_stuck (file : Bytes) (maxReq : Nat) (acts : List Act)
-    (hcaps : ∀ a ∈ acts, actOK a) (hb : ReaderBlocked (run (init file maxReq) acts)) :
-    ∃ a, nonReader a ∧ (step (run (init file maxReq) acts) a).isSome = true := by
-  obtain ⟨hl, hu⟩ := run_live_uniq (init_live file maxReq) (init_uniq file maxReq) acts hcaps
+theorem waiting_reader_not_stuck (file : Bytes) (maxReq bufsize : Nat) (acts : List Act)
+    (hcaps : ∀ a ∈ acts, actOK a) (hb : ReaderBlocked (run (init file maxReq bufsize) acts)) :
+    ∃ a, nonReader a ∧ (step (run (init file maxReq bufsize) acts) a).isSome = true := by
+  obtain ⟨hl, hu⟩ := run_live_uniq (init_live file maxReq bufsize) (init_uniq file maxReq bufsize) acts hcaps
   exact blocked_not_stuck hl hu hb
 
 /-- The other tasks cannot keep running for ever without the reader: every non-reader action strictly decreases
@@ -85,16 +124,16 @@ theorem nonreader_actions_decrease_measure (s s' : St) (a : Act) (hn : nonReader
 /-- **Bounded wait.**  From any reachable state, let the server and the prefetch threads run (any interleaving,
     every action enabled when taken): that takes at most `mu` steps, and once none of them can move the reader is
     not blocked — so under any fair schedule a blocked reader proceeds. -/
-theorem bounded_wait (file : Bytes) (maxReq : Nat) (acts : List Act) (hcaps : ∀ a ∈ acts, actOK a)
+theorem bounded_wait (file : Bytes) (maxReq bufsize : Nat) (acts : List Act) (hcaps : ∀ a ∈ acts, actOK a)
     (others : List Act) (ho : ∀ a ∈ others, nonReader a) (s' : St)
-    (hrun : runStrict (run (init file maxReq) acts) others = some s') :
-    others.length ≤ mu (run (init file maxReq) acts) ∧
+    (hrun : runStrict (run (init file maxReq bufsize) acts) others = some s') :
+    others.length ≤ mu (run (init file maxReq bufsize) acts) ∧
     ((∀ a, nonReader a → step s' a = none) → ¬ ReaderBlocked s') := by
   constructor
   · have := nonReader_run_bounded ho hrun
     omega
   · intro hnone hb
-    obtain ⟨hl0, hu0⟩ := run_live_uniq (init_live file maxReq) (init_uniq file maxReq) acts hcaps
+    obtain ⟨hl0, hu0⟩ := run_live_uniq (init_live file maxReq bufsize) (init_uniq file maxReq bufsize) acts hcaps
     obtain ⟨hl, hu⟩ := runStrict_live_uniq hl0 hu0 (fun a ha => nonReader_actOK (ho a ha)) hrun
     obtain ⟨a, ha, hen⟩ := blocked_not_stuck hl hu hb
     rw [hnone a ha] at hen
